@@ -159,7 +159,9 @@ func emitOpen(c *driverCtx, prop string, rf readerFile) string {
 		c.rec.Realised(fmt.Sprintf("blocks=%d", min(len(f.Blocks), 3)))
 	}
 	c.rec.NewCase()
-	c.rec.Emit(key, map[string]any{"op": "rd_open", "file": byteList(rf.bytes), "codec": rf.codec, "inputs": inputs, "blocks": blocks})
+	open := map[string]any{"op": "rd_open", "file": byteList(rf.bytes), "codec": rf.codec, "inputs": inputs, "blocks": blocks}
+	c.rec.Emit(key, open)
+	c.rec.SetPreamble(open)
 	return key
 }
 
@@ -212,6 +214,9 @@ func driveC07(c *driverCtx) error {
 	typ := reflect.TypeFor[RRec]()
 	files := readerFiles(c, c.thorough())
 	for fi, rf := range files {
+		if rf.name == "over1MiB" || rf.name == "len3bytes" {
+			continue // bit flips over megabyte payloads add nothing but volume; truncation of those is C08's business
+		}
 		f, err := splitContainer(rf.bytes)
 		if err != nil {
 			continue
@@ -255,7 +260,26 @@ func driveC07(c *driverCtx) error {
 				}
 			}
 		}
+		// bound the number of variants per file (every variant is a full ReadFile whose deliveries are recorded)
+		maxVariants := c.pick(400, 6000)
+		siteStride := 1
+		if !c.thorough() {
+			siteStride = 1
+		}
+		for len(sites)*c.pick(2, 8)/siteStride > maxVariants {
+			siteStride++
+		}
 		for si, p := range sites {
+			// sync markers and checksums are never thinned out; payload sites are
+			inPayload := false
+			for _, b := range f.Blocks {
+				if p >= b.DataAt && p < b.SyncAt-4 {
+					inPayload = true
+				}
+			}
+			if inPayload && si%siteStride != 0 {
+				continue
+			}
 			bits := []int{0, 1, 2, 3, 4, 5, 6, 7}
 			if !c.thorough() {
 				bits = []int{si % 8, (si*5 + 3) % 8}
